@@ -11,6 +11,8 @@ import re
 import sys
 import json
 
+import concurrent.futures as cf
+
 import vlib
 
 sys.path.insert(0, os.path.join(vlib.VERIF, "harness", "C01"))
@@ -22,16 +24,56 @@ ALLOWED_AXIOMS = []
 TRUSTED_BASE = [
     "coqc 8.16.1 kernel (vm_compute used for table facts and refutation witnesses; no native_compute)",
     "no axioms: every theorem of coq/C03/Properties.v is 'Closed under the global context'",
-    "translator checks/C03.py:gen: harness/C03/prims.nelua compiled by the real compiler prints the primitive tables and typedefs constants; regex scrape of the memcmp size of the array-field branch of cbuiltins.nelua_eq_",
+    "translator checks/C03.py:gen: harness/C03/prims.nelua compiled by the real compiler prints the primitive tables and typedefs constants; regex scrape of the memcmp size of the array-field branch of cbuiltins.nelua_eq_; harness/C01/scrape.py (owned by C01, shared): scrape_div_guard, scrape_shift_fast_path, scrape_cflags (cflags_base of gcc and clang contain -fwrapv)",
+    "cross-property files: coq/C03/{CSem,Helpers,ProofsBase,ProofsDiv}.v are the SOURCE of the copies in coq/C01 and coq/C09 (checks/C01.py:sync_shared): an edit here changes those checks; checks/C03.py imports harness/C01/{scrape,progs}.py and checks/C01.py (write_modules) for the sanitized whole-program stream; harness/C03/ubdrv.nelua is also run by checks/C09.py",
     "extraction: Require Extraction + ExtrOcamlBasic only; ocaml/zutil.ml + coq/C03/driver.ml",
     "harnesses: harness/C03/typegen.py (type-tree generator, probe program printer), harness/C03/ubdrv.nelua (helper probes), gcc 12 and clang 14 with -fsanitize=address,undefined,float-cast-overflow",
     "modelled rather than verified: coq/C03/CSem.v (C integer semantics with UB = None, three dialects), Helpers.v (cbuiltins helper bodies transcribed by hand), Model.v (types.lua layout functions transcribed by hand, System V layout rules as c_layout)",
 ]
 ASSUMPTIONS = [
     "System V x86-64 / GNU C struct, union and array layout rules as written in coq/C03/Model.v (cl): field offset rounded up to the field alignment, size rounded up to the alignment, packed => field alignment 1, aligned(N) raises the alignment, empty struct has size 0",
-    "gcc/clang treatment of implementation-defined integer behaviour (modular conversion to signed, arithmetic >> on signed); GNU dialect for signed << (used by nelua_asr_ only)",
+    "every supported build passes -fwrapv: discharged from the scraped cflags_base of gcc and clang (C03_supported_builds_no_ub; that the base flags reach the command line in every configuration is checked by C09's cflags stream); user --cflags that undo it are outside the statement",
+    "gcc/clang treatment of implementation-defined integer behaviour (modular conversion to signed, arithmetic >> on signed) and their documented wrapping of signed << (m_gnushl, used by nelua_asr_ and the shl fast path): assumptions about the two compilers, not scraped",
     "declaration order/forward typedefs, lifetime of temporaries and statement expressions, zero initialisers, string literals, containers: exercised by compiling and running generated programs under sanitizers only (testing)",
 ]
+# clauses of the statement that no theorem covers (testing only, or nothing)
+UNPROVED = [
+    "`the emitted C compiles cleanly for every accepted program`: no theorem; 13 fixed witness programs, the layout probes and 8 (quick) / 60 (thorough) generated whole programs built with --sanitize (7 open findings are programs the analyzer accepts and a C compiler rejects or UBSan flags)",
+    "`runs without C-level undefined behaviour` for whole programs: only per-helper/per-operator theorems (division, shifts, + - * unary-, comparisons, narrowing) and the memcmp bounds of nelua_eq_; temporaries, lifetimes, aliasing casts, zero initialisers, declaration order, use after scope: sanitized runs only",
+    "`///` `%%%` and unsigned `//` `%`: undefined for a zero divisor and MIN / -1 (C03_tdiv_no_ub_refuted, C03_udiv_no_ub_refuted; 6 open findings)",
+    "float -> integer narrowing outside the target range (C03_narrow_float_defined_refuted; 2 open findings); float arithmetic, float -> float narrowing, libm calls: not modelled",
+    "integer narrowing h_narrow_int and the bitwise operators have no theorem (they cannot be undefined by the shape of their C)",
+    "eq_accesses (the modelled memcmp calls of nelua_eq_<type>) is proved in bounds but its list is not compared with the memcmp calls in the emitted C (only the scraped sizeof argument and the sanitized eqprobe runs tie it)",
+    "layout: types outside wfb (aligned(N) with N not a power of two or > 65536, 128-bit integers as record fields are in the generator but not in ity_ok, enums, spans, strings, function types): layout stream and witness only",
+    "the GNU treatment of signed << is an assumption, not derived from anything scraped",
+]
+THEOREM_CLASSES = {
+    "C03_idiv_no_ub": "main",
+    "C03_imod_no_ub": "main",
+    "C03_emitted_div_helpers_no_ub": "main",
+    "C03_shl_no_ub": "main",
+    "C03_shr_no_ub": "main",
+    "C03_asr_no_ub_gnu": "main",
+    "C03_asr_needs_gnu_shl": "corollary",          # a remark about the dialects (was `_refuted`): no supported compiler behaves like FWRAPV
+    "C03_emitted_shifts_no_ub": "main",
+    "C03_cmp_helpers_no_ub": "definitional",       # the helpers' C cannot be undefined by its shape
+    "C03_arith_no_ub": "definitional",             # restates what -fwrapv means in CSem.v
+    "C03_supported_builds_no_ub": "main",          # the mode hypotheses discharged from the scraped flags
+    "C03_tdiv_no_ub_refuted": "refutation",
+    "C03_udiv_no_ub_refuted": "refutation",
+    "C03_tdiv_no_ub_partial": "main",
+    "C03_udiv_no_ub_partial": "corollary",
+    "C03_narrow_float_defined_refuted": "refutation",
+    "C03_narrow_float_defined_partial": "definitional",
+    "C03_prims_agree": "tripwire",                 # vm_compute on the tables printed by the real compiler
+    "C03_layout_agrees": "main",
+    "C03_eq_in_bounds": "main",
+}
+MANIFEST_ENTRY = {
+    "text": "proof, partial: theorems cover (a) layout - for every well-formed type tree (records packed/aligned, unions, arrays incl. zero length, nested) the compiler's size, alignment and field offsets are the C compiler's, so the emitted static assertion holds; (b) UB-freedom of the emitted integer helpers and operators in the dialect of every supported build (-fwrapv from the scraped base flags of gcc and clang): floor division / modulo checked and unchecked, the three shifts with helper and constant-count fast path, + - * unary-, mixed-sign comparisons; `///` `%%%` and unsigned `//` `%` REFUTED (bare C division: zero divisor, MIN / -1), float -> integer narrowing REFUTED outside the range; (c) the memcmp calls of record equality stay inside the object.  Rest on testing only: `compiles cleanly` and `no UB` for whole programs (witness programs, layout probes, generated programs under ASan/UBSan with gcc and clang).",
+    "note": "no axioms; tie: primitive tables printed by the real compiler, scraped cbuiltins.lua/cdefs.lua facts, extracted model run against gcc and clang builds under sanitizers (helpers with checks on and off, literal shift counts, layout probes); 13 open findings replayed on every run; coq/C03/{CSem,Helpers,ProofsBase,ProofsDiv}.v are copied into coq/C01 and coq/C09; uses harness/C01/{scrape,progs}.py",
+    "technique": "Coq theorems about an executable Gallina model + generated parameters + behavioural correspondence of the extracted model under sanitizers",
+}
 
 
 def read_prims(ctx_work):
@@ -81,6 +123,8 @@ def gen(ctx):
         raise RuntimeError("cbuiltins.lua: cannot classify the memcmp size of nelua_eq_: %s" % arg)
     guard = scrape.scrape_div_guard(cb)
     fastw = scrape.scrape_shift_fast_path(cb)
+    fl = scrape.scrape_cflags(vlib.repo_read("lualib/nelua/cdefs.lua"))
+    wrapv = {cc: "-fwrapv" in fl[cc]["cflags_base"].split() for cc in ("gcc", "clang")}
     pl = lambda t: "[" + "; ".join("(%d, %d)" % t[x] for x in names) + "]"
     txt = "\n".join([
         "(* GENERATED by checks/C03.py from /repo (harness/C03/prims.nelua through the real compiler with gcc and clang; cbuiltins.lua) - do not edit *)",
@@ -106,11 +150,15 @@ def gen(ctx):
         "Definition shl_fast_width_left : bool := %s." % ("true" if fastw["shl"] else "false"),
         "Definition shr_fast_width_left : bool := %s." % ("true" if fastw["shr"] else "false"),
         "Definition asr_fast_width_left : bool := %s." % ("true" if fastw["asr"] else "false"),
+        "(* cdefs.lua compilers_flags.<cc>.cflags_base (passed in every build configuration) contains -fwrapv *)",
+        "Definition gcc_base_has_fwrapv : bool := %s." % ("true" if wrapv["gcc"] else "false"),
+        "Definition clang_base_has_fwrapv : bool := %s." % ("true" if wrapv["clang"] else "false"),
         "",
     ])
     vlib.write_if_changed(os.path.join(vlib.coq_dir(ID), "Gen.v"), txt)
     return {"primitives": names, "nelua_prims": [g["nelua"][x] for x in names], "c_prims": [g["c"][x] for x in names],
-            "consts": g["consts"], "eq_array_memcmp_size_is_field": is_field, "eq_array_memcmp_arg": arg, "div_guard_first": guard, "shift_fast_path_compares_left_width": fastw}
+            "consts": g["consts"], "eq_array_memcmp_size_is_field": is_field, "eq_array_memcmp_arg": arg, "div_guard_first": guard, "shift_fast_path_compares_left_width": fastw,
+            "cflags_base_has_fwrapv": wrapv}
 
 
 # ---------------------------------------------------------------------------
@@ -123,7 +171,7 @@ M64 = 1 << 64
 SAN = ["--sanitize", "--cflags=-fsanitize=float-cast-overflow"]
 TYPES = ["i8", "i16", "i32", "i64", "u8", "u16", "u32", "u64"]
 BITS = [8, 16, 32, 64, 8, 16, 32, 64]
-OPS = {1: "add", 2: "sub", 3: "mul", 4: "idiv", 5: "imod", 6: "shl", 7: "shr", 8: "asr", 9: "unm", 10: "bnot"}
+OPS = {1: "add", 2: "sub", 3: "mul", 4: "idiv", 5: "imod", 6: "shl", 7: "shr", 8: "asr", 9: "unm", 10: "bnot", 11: "cmp", 12: "tdiv", 13: "tmod"}
 
 W_ZERO_ALIGNED = "layout: record{a: record{z: [0]int64}, b: byte} (zero-size record forgets its alignment)"
 W_ZERO_UNION = "layout: record{a: union{z: [0]int64}, b: byte} (zero-size union forgets its alignment)"
@@ -146,6 +194,9 @@ WITNESS_PROGRAMS = [
     ('cgen: f().arr with f returning a record by value (address of an rvalue)', 'local R = @record{arr: [3]integer, n: integer}\nlocal function f(): R\n  local r: R\n  r.arr[1] = 7\n  r.n = 2\n  return r\nend\nlocal a = f().arr\nprint(a[1], f().arr[1], f().n)\n', "7\t7\t2\n"),
     ('cgen: array field of a <packed> record read through a misaligned _cast union', 'local P <packed> = @record{b: byte, arr: [2]int64, c: byte}\nlocal p: P\np.arr[1] = 5\nlocal function get(q: *P, i: integer): int64 return q.arr[i] end\nlocal arrcopy = p.arr\nprint(get(&p, 1), arrcopy[1], p.arr[0] + p.arr[1])\n', "5\t5\t5\n", "gcc", SAN),
     ('cgen: defer block holding a loop with `break` inside a switch, emitted at two exits (duplicate C label)', "local function f(x: integer): integer\n  for i = 1, 3 do\n    defer\n      for j = 1, 2 do\n        switch j do\n        case 1 then\n          break\n        else\n          print('other', j)\n        end\n      end\n      print('deferred', i)\n    end\n    if i == 2 then return i end\n  end\n  return 0\nend\nprint(f(1))\n", "deferred\t1\ndeferred\t2\n2\n"),
+    # the analyzer accepts any integer in <aligned(N)>; a located compile error would be fine too (6th field)
+    ("cgen: local R <aligned(3)> = @record{a: byte}, r.a = 1 (alignment not a power of two)",
+     "local R <aligned(3)> = @record{a: byte}\nlocal r: R\nr.a = 1\nprint(r.a)\n", "1\n", "gcc", (), "reject_ok"),
     (W_ZERO_LIT2, "local In = @record{x: integer}\nlocal A = @record{z: [0]In, f: float32}\nlocal B = @record{a: A, y: integer}\n"
                   "local function f(): integer local v: B return v.y end\nprint(f())\n", "0\n", "gcc"),
 ]
@@ -315,7 +366,7 @@ def stream_layout(ctx, driver, scraped, cov):
 
     for bi, cc, extra in jobs:
         check_batch(bi, cc, extra, wf_cases[bi:bi + batch])
-    # outside the domain of C03_layout_agrees_partial: the model must still predict both sides exactly
+    # outside the domain of C03_layout_agrees (wfb = false): the model must still predict both sides exactly
     out_cases = [(t, m) for t, m in zip(allc, model) if not m["wf"]]
     zt = []
     for _ in range(ctx.scale(25, 400)):
@@ -365,6 +416,19 @@ def lattice(bits, signed):
     return sorted(x for x in L if lo <= x <= hi)
 
 
+# exact operands on which the emitted C executes undefined behaviour in the DEFAULT build (known_findings/C03.json):
+# `///`, `%%%` on any integers and `//`, `%` on operands that cannot be negative are bare C `/` and `%`
+# (cbuiltins.operators.tdiv / tmod / idiv / mod -> operator_binary_op); (type index, op, a, b)
+W_TDIV = [
+    ("ub: operators.tdiv int64: -9223372036854775808 /// -1 (run-time operands, default build)", (3, 12, -(1 << 63), -1)),
+    ("ub: operators.tmod int64: -9223372036854775808 %%% -1 (run-time operands, default build)", (3, 13, -(1 << 63), -1)),
+    ("ub: operators.tdiv int64: 5 /// 0 (run-time operands, default build)", (3, 12, 5, 0)),
+    ("ub: operators.tmod int64: 5 %%% 0 (run-time operands, default build)", (3, 13, 5, 0)),
+    ("ub: operators.idiv uint64: 5 // 0 (run-time operands, default build)", (7, 4, 5, 0)),
+    ("ub: operators.mod uint64: 5 % 0 (run-time operands, default build)", (7, 5, 5, 0)),
+]
+
+
 def stream_helpers(ctx, driver, cov):
     rng = ctx.rng
     src = os.path.join(vlib.VERIF, "harness", ID, "ubdrv.nelua")
@@ -384,9 +448,7 @@ def stream_helpers(ctx, driver, cov):
                     cases.append((ti, op, a, 0))
             else:
                 for a in L:
-                    for b in L:
-                        if name in ("idiv", "imod") and b == 0:
-                            continue
+                    for b in L:             # zero divisors included: the checked helpers stop, the bare operators are undefined
                         cases.append((ti, op, a, b))
         for _ in range(ctx.scale(150, 4000)):
             lo, hi = (-(1 << (bits - 1)), (1 << (bits - 1)) - 1) if signed else (0, (1 << bits) - 1)
@@ -394,81 +456,181 @@ def stream_helpers(ctx, driver, cov):
             a, b = rng.randint(lo, hi), rng.randint(lo, hi)
             if OPS[op] in ("shl", "shr", "asr"):
                 b = rng.choice([rng.randint(-bits - 3, bits + 3), rng.randint(-300, 300), rng.randint(-(1 << 63), (1 << 63) - 1)])
-            if OPS[op] in ("idiv", "imod") and b == 0:
-                b = 1
+            if OPS[op] in ("idiv", "imod", "tdiv", "tmod") and rng.random() < .3:
+                b = rng.choice([0, -1, 1, 2, -2]) if signed else rng.choice([0, 1, 2, 3])
             cases.append((ti, op, a, b))
+    for _, w in W_TDIV:
+        if w not in cases:
+            cases.append(w)
+    # mixed signedness comparisons (nelua_lt_/nelua_eq_ helpers): int64 against uint64, type index 9 of the probe
+    S64, U64L = lattice(64, True), lattice(64, False)
+    mixed = [(8, 1, a, b) for a in S64 for b in U64L] + [(8, 2, a, b) for a in S64 for b in U64L]
+    mixed += [(8, rng.choice([1, 2]), rng.randint(-(1 << 63), (1 << 63) - 1), rng.getrandbits(64)) for _ in range(ctx.scale(100, 2000))]
 
     def to64(v):
         return v - M64 if v >= (1 << 63) else v
 
-    def mline(c):
+    def mlines(c):
         ti, op, a, b = c
+        if ti == 8:
+            return ["helper %s fwrapv i64 %s %s" % (n, hexs(a), hexs(b)) for n in ("ltsu", "ltus", "eqsu")]
         tn, name = TYPES[ti], OPS[op]
         signed = tn[0] == "i"
         mode = "gnu" if name == "asr" else "fwrapv"
+        if name == "cmp":
+            return ["helper %s fwrapv %s %s %s" % (n, tn, hexs(a), hexs(b)) for n in ("lt", "le", "eq")]
         if name in ("idiv", "imod") and not signed:
             name = {"idiv": "cdiv", "imod": "crem"}[name]
         # (shift counts travel as int64: the helpers take the count as int64 since /repo 2cffa35)
-        return "helper %s %s %s %s %s" % (name, mode, tn, hexs(a), hexs(b))
-    rc, mout, merr = vlib.sh([driver], input="\n".join(mline(c) for c in cases) + "\n", timeout=900)
-    ml = mout.split("\n")
-    itext = "\n".join("%d %d %d %d" % (c[0] + 1, c[1], to64(c[2]), to64(c[3])) for c in cases) + "\n"
+        return ["helper %s %s %s %s %s" % (name, mode, tn, hexs(a), hexs(b))]
+
+    def iline(c):
+        return "%d %d %d %d" % (c[0] + 1, c[1], to64(c[2]), to64(c[3]))
+
+    def expected(c, ms):
+        """text the probe prints, from the model outcomes (all values)"""
+        def val(m):
+            return -int(m[3:], 16) if m[2] == "-" else int(m[2:], 16)
+        ti, op, a, b = c
+        tf = lambda x: "true" if x else "false"
+        if ti == 8:
+            lt_su, lt_us, eq_su = [val(m) == 1 for m in ms]
+            # the three modelled helpers; the other comparisons are derived from them by the generator (b < a etc.) and
+            # are checked against the mathematical order of the two operands
+            if op == 1:     # a: int64, b: uint64
+                return "\t".join(tf(x) for x in (lt_su, a <= b, eq_su, a > b, a >= b, a != b)), (lt_su == (a < b) and eq_su == (a == b))
+            return "\t".join(tf(x) for x in (lt_us, b <= a, eq_su, b > a, b >= a, b != a)), (lt_us == (b < a) and eq_su == (a == b))
+        if OPS[op] == "cmp":
+            return "\t".join(tf(val(m) == 1) for m in ms), True
+        return str(val(ms[0])), True
+
+    allc = cases + mixed
+    flat = []
+    for c in allc:
+        flat += mlines(c)
+    rc, mout, merr = vlib.sh([driver], input="\n".join(flat) + "\n", timeout=900)
+    mall = mout.split("\n")
+    ml, k = [], 0
+    for c in allc:
+        n = len(mlines(c))
+        ml.append(mall[k:k + n])
+        k += n
     n_oracle = n_mm = 0
     runs = {}
-    for cc in (["gcc", "clang"] if ctx.thorough else ["gcc", "clang"]):
+    stat = {"values": 0, "checked_stops": 0, "undefined_predicted_by_refuted_theorems": 0, "undefined_not_run": 0}
+    defined = [(c, m) for c, m in zip(allc, ml) if all(x.startswith("v:") for x in m)]
+    stops = [(c, m) for c, m in zip(allc, ml) if m == ["panic"]]
+    undefined = [(c, m) for c, m in zip(allc, ml) if m == ["ub"]]
+    other = [(c, m) for c, m in zip(allc, ml) if (c, m) not in defined and m not in (["panic"], ["ub"])]
+    for c, m in other[:3]:
+        ctx.violation("harness-run:helpers-model", "harness", "model output for %s: %r" % (c, m), failing_input=False)
+    wit = dict((w, key) for key, w in W_TDIV)
+    # undefined cases are run one per process: the designated witnesses always, a sample of the others
+    und_sel = [x for x in undefined if x[0] in wit]
+    rest = [x for x in undefined if x[0] not in wit]
+    und_sel += rest if ctx.thorough else rng.sample(rest, min(len(rest), 60))
+    stat["undefined_not_run"] = len(undefined) - len(und_sel)
+    itext = "\n".join(iline(c) for c, _ in defined) + "\n"
+    env = {"UBSAN_OPTIONS": "print_stacktrace=0", "ASAN_OPTIONS": "detect_leaks=0"}
+    for cc in ["gcc", "clang"]:
         try:
             exe, _ = build(ctx, src, "ubdrv", SAN, cc)
         except RuntimeError as ex:
             ctx.violation("harness-run:ubdrv:%s" % cc, "harness", str(ex)[:600], failing_input=False)
             continue
-        rc, o, e = vlib.sh([exe], input=itext, timeout=900, env={"UBSAN_OPTIONS": "print_stacktrace=0", "ASAN_OPTIONS": "detect_leaks=0"})
+        rc, o, e = vlib.sh([exe], input=itext, timeout=900, env=env)
         ol = o.split("\n")
         runs[cc] = {"rc": rc, "ubsan_reports": e.count("runtime error")}
         if "runtime error" in e or "AddressSanitizer" in e or rc != 0:
             # attribute: rerun the cases one type/op group at a time
             groups = {}
-            for c in cases:
+            for c, m in defined:
                 groups.setdefault((c[0], c[1]), []).append(c)
             for (ti, op), g in sorted(groups.items()):
-                rcg, og, eg = vlib.sh([exe], input="\n".join("%d %d %d %d" % (c[0] + 1, c[1], to64(c[2]), to64(c[3])) for c in g) + "\n", timeout=300)
+                rcg, og, eg = vlib.sh([exe], input="\n".join(iline(c) for c in g) + "\n", timeout=300, env=env)
                 if "runtime error" in eg or rcg != 0:
                     bad = None
                     for c in g:
-                        r1 = vlib.sh([exe], input="%d %d %d %d\n" % (c[0] + 1, c[1], to64(c[2]), to64(c[3])), timeout=60)
+                        r1 = vlib.sh([exe], input=iline(c) + "\n", timeout=60, env=env)
                         if "runtime error" in r1[2] or r1[0] != 0:
                             bad = (c, r1[2])
                             break
                     if bad:
                         n_oracle += 1
                         c, msg = bad
-                        ctx.violation("ub:%s:%s %s %d %d" % (cc, TYPES[c[0]], OPS[c[1]], c[2], c[3]), "oracle",
-                                      "%s %s on %s operands %d, %d executes C undefined behaviour under %s: %s" %
-                                      (OPS[c[1]], "helper/operator", TYPES[c[0]], c[2], c[3], cc, msg.strip().split("\n")[0][:300]),
-                                      detail={"model": ml[cases.index(c)], "stderr": msg[-800:],
-                                              "replay": "echo '%d %d %d %d' | <harness/C03/ubdrv.nelua built with --cc %s --sanitize>" % (c[0] + 1, c[1], to64(c[2]), to64(c[3]), cc)})
+                        tn = TYPES[c[0]] if c[0] < 8 else "i64/u64"
+                        on = OPS[c[1]] if c[0] < 8 else "mixed-compare-%d" % c[1]
+                        ctx.violation("ub:%s:%s %s %d %d" % (cc, tn, on, c[2], c[3]), "oracle",
+                                      "%s %s on %s operands %d, %d executes C undefined behaviour under %s (the model says it is defined): %s" %
+                                      (on, "helper/operator", tn, c[2], c[3], cc, msg.strip().split("\n")[0][:300]),
+                                      detail={"model": ml[allc.index(c)], "stderr": msg[-800:],
+                                              "replay": "echo '%s' | <harness/C03/ubdrv.nelua built with --cc %s --sanitize>" % (iline(c), cc)})
             continue
-        for c, m, line in zip(cases, ml, ol):
-            ti, op, a, b = c
-            if not m.startswith("v:"):
+        for (c, m), line in zip(defined, ol):
+            stat["values"] += 1
+            exp, model_is_math = expected(c, m)
+            if line.strip() != exp or not model_is_math:
                 n_mm += 1
                 if n_mm <= 3:
-                    ctx.violation("model-mismatch:helper-%s" % OPS[op], "correspondence",
-                                  "model says %s for %s %s %d %d but the sanitizers are silent (%s)" % (m, TYPES[ti], OPS[op], a, b, cc),
+                    ctx.violation("model-mismatch:helper-%s" % (OPS.get(c[1]) if c[0] < 8 else "mixed-compare"), "correspondence",
+                                  "probe line `%s`: model %s (expected output %r), implementation (%s) %r" % (iline(c), m, exp, cc, line.strip()),
                                   detail={"no_longer_checks": "correspondence stream C03/helpers"}, failing_input=False)
-                continue
-            mv = -int(m[3:], 16) if m[2] == "-" else int(m[2:], 16)
-            try:
-                iv = int(line)
-            except ValueError:
-                iv = line
-            if iv != mv:
-                n_mm += 1
-                if n_mm <= 3:
-                    ctx.violation("model-mismatch:helper-%s" % OPS[op], "correspondence",
-                                  "%s %s %d %d: model %s, implementation (%s) %s" % (TYPES[ti], OPS[op], a, b, mv, cc, iv),
-                                  detail={"no_longer_checks": "correspondence stream C03/helpers"}, failing_input=False)
-    cov["helpers"] = {"cases": len(cases), "runs": runs, "oracle_failures": n_oracle, "model_mismatches": n_mm}
-    return len(cases), len(set(cases)), ["%s %s %d %d" % (TYPES[c[0]], OPS[c[1]], c[2], c[3]) for c in cases[:2]]
+
+        def run1(cm):
+            return vlib.sh([exe], input=iline(cm[0]) + "\n", timeout=60, env=env)
+        with cf.ThreadPoolExecutor(max_workers=4) as ex:
+            # the model says the check stops the program: a Nelua run-time error, no sanitizer report
+            sel = stops if ctx.thorough else rng.sample(stops, min(len(stops), 80))
+            for (c, m), r in zip(sel, ex.map(run1, sel)):
+                stat["checked_stops"] += 1
+                # (a --sanitize build reports nelua_abort's deliberate `unreachable` after the message: not a defect)
+                noise = [x for x in r[2].split("\n") if "runtime error" in x and "unreachable program point" not in x]
+                if r[0] == 0 or not r[2].startswith("division by zero") or noise:
+                    n_mm += 1
+                    if n_mm <= 3:
+                        ctx.violation("model-mismatch:helper-%s" % OPS[c[1]], "correspondence",
+                                      "probe line `%s` (%s): the model says the checked helper stops the program; rc %s stderr %r" % (iline(c), cc, r[0], r[2][-200:]),
+                                      detail={"no_longer_checks": "correspondence stream C03/helpers"}, failing_input=False)
+            # the model says the emitted C is undefined: the sanitizer must report it (known findings: the designated
+            # witnesses by exact key; the others are the same defect as predicted by the model of the unchanged code:
+            # theorems C03_tdiv_no_ub_refuted / C03_udiv_no_ub_refuted)
+            for (c, m), r in zip(und_sel, ex.map(run1, und_sel)):
+                reported = "runtime error" in r[2]
+                if not reported:
+                    n_mm += 1
+                    if n_mm <= 3:
+                        ctx.violation("model-mismatch:helper-%s" % OPS[c[1]], "correspondence",
+                                      "probe line `%s` (%s): the model says undefined behaviour, the sanitizers are silent (rc %s, stdout %r, stderr %r)" % (iline(c), cc, r[0], r[1][:60], r[2][-200:]),
+                                      detail={"no_longer_checks": "correspondence stream C03/helpers"}, failing_input=False)
+                elif c in wit:
+                    if cc == "gcc":
+                        ctx.violation(wit[c], "oracle", "%s: %s" % (wit[c], r[2].strip().split("\n")[0][:300]),
+                                      detail={"replay": "echo '%s' | <harness/C03/ubdrv.nelua built with --sanitize>" % iline(c), "model": m})
+                else:
+                    stat["undefined_predicted_by_refuted_theorems"] += 1
+    # the unchecked variants (-P nochecks): signed floor division / modulo with a non-zero divisor, under the sanitizers
+    nc = [c for c in cases if c[0] < 4 and OPS[c[1]] in ("idiv", "imod") and c[3] != 0]
+    try:
+        exe, _ = build(ctx, src, "ubdrv-nochecks", SAN + ["-P", "nochecks"], "gcc")
+        rc, mo, me = vlib.sh([driver], input="\n".join("helper %s_nc fwrapv %s %s %s" % (OPS[c[1]], TYPES[c[0]], hexs(c[2]), hexs(c[3])) for c in nc) + "\n", timeout=600)
+        rc, o, e = vlib.sh([exe], input="\n".join(iline(c) for c in nc) + "\n", timeout=600, env=env)
+        runs["gcc -P nochecks"] = {"rc": rc, "ubsan_reports": e.count("runtime error"), "cases": len(nc)}
+        if rc != 0 or "runtime error" in e or "AddressSanitizer" in e:
+            n_oracle += 1
+            ctx.violation("ub:gcc:nochecks-div-helpers", "oracle", "unchecked nelua_idiv_/nelua_imod_ with a non-zero divisor: %s" % e.strip().split("\n")[0][:300],
+                          detail={"stderr": e[-800:], "replay": "<harness/C03/ubdrv.nelua built with --sanitize -P nochecks> on the lattice of the helpers stream"})
+        else:
+            for c, m, line in zip(nc, mo.split("\n"), o.split("\n")):
+                if not m.startswith("v:") or line.strip() != str(-int(m[3:], 16) if m[2] == "-" else int(m[2:], 16)):
+                    n_mm += 1
+                    if n_mm <= 3:
+                        ctx.violation("model-mismatch:helper-%s" % OPS[c[1]], "correspondence", "probe line `%s` [-P nochecks]: model %s, implementation %r" % (iline(c), m, line.strip()),
+                                      detail={"no_longer_checks": "correspondence stream C03/helpers"}, failing_input=False)
+    except RuntimeError as ex:
+        ctx.violation("harness-run:ubdrv-nochecks", "harness", str(ex)[:600], failing_input=False)
+    cov["helpers"] = {"cases": len(allc), "defined": len(defined), "stops": len(stops), "undefined": len(undefined), "runs": runs,
+                      "oracle_failures": n_oracle, "model_mismatches": n_mm, **stat}
+    return len(allc), len(set(allc)), [iline(c) for c in allc[:2]]
 
 
 NTYPES = ["int8", "int16", "int32", "int64", "uint8", "uint16", "uint32", "uint64"]
@@ -598,9 +760,9 @@ def stream_narrow(ctx, driver, cov):
     vals = [(12.0, 1), (-7.0, 1), (2.0 ** 62, 1), (-2.0 ** 63, 1), (3.0, 3), (255.0, 3), (2.0 ** 31 - 1, 2), (-2.0 ** 31, 2)]
     bad = [(1e30, 1, W_NARROW)]
     res = {}
-    for cc in ["gcc"] + (["clang"] if ctx.thorough else []):
+    for cc in ["gcc", "clang"]:       # the clang finding is replayed in the quick tier too (one more probe build)
         exe, _ = build(ctx, src, "narrow", SAN, cc)
-        for x, dest, in vals:
+        for x, dest, in (vals if cc == "gcc" or ctx.thorough else []):
             bits = struct.unpack("<q", struct.pack("<d", x))[0]
             rc, o, e = vlib.sh([exe], input="%d %d\n" % (bits, dest), timeout=60)
             mo = vlib.sh([driver], input="narrowf %s 1 %s\n" % ({1: "i64", 2: "i32", 3: "u8"}[dest], double_parts(x)))[1].strip()
@@ -684,12 +846,57 @@ def stream_witness_programs(ctx, cov):
         open(f, "w").write(src)
         rc, o, e = vlib.nelua(["--no-cache", "--cache-dir", os.path.join(d, "cache%d" % i), "--cc", cc] + extra + [f], timeout=120)
         ok = rc == 0 and o == expect and "runtime error" not in e and "AddressSanitizer" not in e
+        if not ok and len(w) > 5 and w[5] == "reject_ok":
+            ra = vlib.nelua(["--analyze", f], timeout=120)
+            if ra[0] != 0 and re.search(r"%s:\d+:\d+: error:" % re.escape(os.path.basename(f)), ra[2]):
+                res[key] = "rejected by the analyzer with a located error"
+                continue
         res[key] = "ok" if ok else "fails"
         if not ok:
             ctx.violation(key, "oracle", "accepted program does not build/run: rc=%d %s" % (rc, " | ".join(x for x in e.strip().split("\n") if "error" in x)[:400] or ("stdout %r" % o[:200])),
                           detail={"source": src, "stderr": e[-1500:], "replay": "nelua <file with source>"})
     cov["witness_programs"] = res
     return len(WITNESS_PROGRAMS)
+
+
+def stream_programs_sanitized(ctx, cov):
+    """whole programs of the shared subset (the C01 generator: arithmetic, strings, records through methods, loops,
+    functions, require) compiled with --sanitize: the build must be clean and the run free of sanitizer reports"""
+    sys.path.insert(0, os.path.join(vlib.VERIF, "harness", "C01"))
+    import random
+    import progs
+    from checks import C01
+    d = os.path.join(ctx.work, "programs")
+    os.makedirs(d, exist_ok=True)
+    C01.write_modules(d)
+    jobs = []
+    for i in range(ctx.scale(8, 60)):
+        seed = ctx.rng.getrandbits(40)
+        n, l, st = progs.gen_program(random.Random(seed), ctx.rng.choice([12, 25, 40]), "modx" if ctx.rng.random() < .3 else None)
+        f = os.path.join(d, "g%d.nelua" % i)
+        open(f, "w").write(n)
+        for cc in ["gcc"] + (["clang"] if ctx.thorough or i % 4 == 0 else []):
+            jobs.append((seed, f, cc, n))
+
+    def run(j):
+        seed, f, cc, n = j
+        return vlib.nelua(["--no-cache", "--cache-dir", f + ".cache-" + cc, "--cc", cc] + SAN + [f], cwd=d, timeout=300, max_out=64 * 1024 * 1024,     # (no address-space limit: ASan reserves its shadow)
+                          env={"UBSAN_OPTIONS": "print_stacktrace=0", "ASAN_OPTIONS": "detect_leaks=0"})
+    n_bad = n_skip = 0
+    with cf.ThreadPoolExecutor(max_workers=4) as ex:
+        for (seed, f, cc, n), (rc, o, e) in zip(jobs, ex.map(run, jobs)):
+            if rc in (124, 125) or "OUTPUT LIMIT" in e:
+                n_skip += 1
+                continue
+            if rc != 0 or "runtime error" in e or "AddressSanitizer" in e:
+                n_bad += 1
+                if n_bad <= 3:
+                    lines = [x for x in e.split("\n") if "runtime error" in x or "error:" in x or "AddressSanitizer" in x]
+                    ctx.violation("program-sanitized:seed:%d:%s" % (seed, cc), "oracle",
+                                  "generated program (seed %d) built with --sanitize --cc %s: rc %s %s" % (seed, cc, rc, (lines or [e.strip()[-200:]])[0][:300]),
+                                  detail={"source": n[:6000], "stderr": e[-1500:], "replay": "nelua --sanitize --cc %s <file with source>" % cc})
+    cov["programs_sanitized"] = {"builds": len(jobs), "failures": n_bad, "skipped_resource_budget": n_skip}
+    return len(jobs)
 
 
 def correspond(ctx):
@@ -703,6 +910,7 @@ def correspond(ctx):
     n3 += stream_constshift(ctx, driver, cov)
     n4 = stream_witness_programs(ctx, cov)
     n4 += stream_eqprobe(ctx, cov)
+    n4 += stream_programs_sanitized(ctx, cov)
     return {
         "evaluations": n1 + n2 + n3 + n4,
         "distinct_nontrivial": d1 + d2,
